@@ -548,7 +548,7 @@ func init() {
 		ruleConfigWiring(r)
 		ruleIndexNamesNewLocation(r)
 		// an open store runs the flusher and both collectors behind every call
-		r.support(grpMap, grpPools, grpGC, grpBackpressure)
+		r.support(grpMap, grpPools, grpGC, grpBackpressure, []string{"race"})
 	},
 		"Decides structural necessary conditions of map-equivalence, not the behaviour: (keycheck) every outcome of Store.Get/Has/GetSize/Remove/Put that reports or acts on an existing key is only reachable through a successful full-key comparison between the requested key and the key stored at the indexed location; (samevalue-guard) Put's no-store success exit requires the key match; (opaque-value) no primary Get branches on the cached value bytes; (immutable-noeffect) ErrKeyExists precedes every write; (pool-order) index cache lookup order; (predict) the location predicted by the primary's Put and the location written by flushBlock are computed by sibling expressions that agree (affine comparison). Not covered: prefix trimming, ordering, iteration contents, file rollover arithmetic beyond sibling agreement.",
 		"a comparison by bytes.Equal/bytes.Compare between values derived from IndexKey(param) and Primary.Get/GetIndexKey(indexed location) is a full-key comparison",
